@@ -8,6 +8,10 @@ f and F refer to nothing but their arguments, ``np`` and ``scipy``: their source
 and scipy are imported under these names, so that a model written to a file (kafe2 stores the source) can be read back.
 and an exact reference ``exact(name, params, a, b)`` = integral of f over [a, b] that does not go through F:
 rational arithmetic for the monomials, 40-digit mpmath for normal / exponential / mixture.
+
+Next to the densities of the full product (GRID) there are special purpose ones: ``normal0`` = kafe2's default density (normal
+distribution, defaults mu = sigma = 1) written down independently, and the GUARDED densities ``gnormal`` / ``rexpo`` that raise
+outside their parameter domain (sigma <= 0: ValueError; tau = 0: ZeroDivisionError), with BAD_POINTS outside the domain.
 """
 import collections
 import math
@@ -134,6 +138,53 @@ def mixture_Fs(x, f=0.3, mu=1.2, sigma=0.8, lam=0.5):
     return f * 0.5 * (1.0 + math.erf((x - mu) / (sigma * _SQ2))) - (1.0 - f) * math.exp(-lam * x)
 
 
+# -- kafe2's default density under its own name: normal distribution with the defaults mu = sigma = 1 ---------
+def normal0(x, mu=1.0, sigma=1.0):
+    return np.exp(-0.5 * ((x - mu) / sigma) ** 2) / (np.sqrt(2.0 * np.pi) * sigma)
+
+
+def normal0_F(x, mu=1.0, sigma=1.0):
+    return 0.5 * (1.0 + scipy.special.erf((x - mu) / (sigma * np.sqrt(2.0))))
+
+
+def normal0_Fs(x, mu=1.0, sigma=1.0):
+    return 0.5 * (1.0 + math.erf((float(x) - mu) / (sigma * _SQ2)))
+
+
+# -- densities that are defined on a part of the parameter space only and RAISE elsewhere -------------------
+def gnormal(x, mu=1.2, sigma=0.8):
+    if not sigma > 0.0:
+        raise ValueError("gnormal: the width must be positive")
+    return np.exp(-0.5 * ((x - mu) / sigma) ** 2) / (np.sqrt(2.0 * np.pi) * sigma)
+
+
+def gnormal_F(x, mu=1.2, sigma=0.8):
+    if not sigma > 0.0:
+        raise ValueError("gnormal: the width must be positive")
+    return 0.5 * (1.0 + scipy.special.erf((x - mu) / (sigma * np.sqrt(2.0))))
+
+
+def gnormal_Fs(x, mu=1.2, sigma=0.8):
+    if not sigma > 0.0:
+        raise ValueError("gnormal: the width must be positive")
+    return 0.5 * (1.0 + math.erf((float(x) - mu) / (sigma * _SQ2)))
+
+
+def rexpo(x, tau=2.0):
+    lam = 1.0 / float(tau)  # ZeroDivisionError for tau = 0
+    return lam * np.exp(-lam * x)
+
+
+def rexpo_F(x, tau=2.0):
+    lam = 1.0 / float(tau)
+    return -np.exp(-lam * x)
+
+
+def rexpo_Fs(x, tau=2.0):
+    lam = 1.0 / float(tau)
+    return -math.exp(-lam * float(x))
+
+
 Density = collections.namedtuple("Density", "name f F Fs degree base_points")
 
 DENSITIES = collections.OrderedDict()
@@ -145,21 +196,48 @@ DENSITIES["normal"] = Density("normal", normal, normal_F, normal_Fs, None, ((1.2
 DENSITIES["expo"] = Density("expo", expo, expo_F, expo_Fs, None, ((0.5,), (1.3,), (2.2,)))
 DENSITIES["mixture"] = Density("mixture", mixture, mixture_F, mixture_Fs, None, ((0.3, 1.2, 0.8, 0.5), (0.6, 2.1, 1.5, 1.3), (0.8, 0.4, 0.6, 2.2)))
 
+GRID = tuple(DENSITIES)  # the densities of the full grammar product
+# special purpose densities (own families of the check, not part of the full product)
+DENSITIES["normal0"] = Density("normal0", normal0, normal0_F, normal0_Fs, None, ((1.0, 1.0), (2.1, 1.5), (0.4, 0.6)))
+DENSITIES["gnormal"] = Density("gnormal", gnormal, gnormal_F, gnormal_Fs, None, ((1.2, 0.8), (2.1, 1.5), (0.4, 0.6)))
+DENSITIES["rexpo"] = Density("rexpo", rexpo, rexpo_F, rexpo_Fs, None, ((2.0,), (0.75,), (0.4,)))
+FAMILY = {"normal": "normal", "normal0": "normal", "gnormal": "normal", "expo": "expo", "rexpo": "rexpo", "mixture": "mixture"}
+GUARDED = ("gnormal", "rexpo")
+# parameter points at which the density (and its antiderivative) cannot be evaluated: the function raises
+BAD_POINTS = {"gnormal": ((1.2, 0.0), (2.1, -0.8)), "rexpo": ((0.0,),)}
+
+
+def evaluable(name, params):
+    """can the density be evaluated for these parameter values (does not raise)?"""
+    if name == "gnormal":
+        return params[1] > 0.0
+    if name == "rexpo":
+        return params[0] != 0.0
+    return True
+
+
+def _mapped(name, p, s, t):
+    fam = FAMILY.get(name)
+    if fam is None:
+        return tuple(p)
+    if fam == "normal":
+        return (s * p[0] + t, s * p[1])
+    if fam == "expo":
+        return (p[0] / s,)
+    if fam == "rexpo":
+        return (p[0] * s,)
+    return (p[0], s * p[1] + t, s * p[2], p[3] / s)
+
+
+def bad_points(name, s, t):
+    """The points outside the domain of a guarded density under the affine map x -> s x + t (s > 0: they stay outside)."""
+    return [_mapped(name, p, s, t) for p in BAD_POINTS.get(name, ())]
+
 
 def points(name, s, t):
     """The three parameter points of a density under the affine map x -> s x + t of the abscissa (location
     parameters move with the binning, widths scale, rates scale inversely; amplitudes are unchanged)."""
-    out = []
-    for p in DENSITIES[name].base_points:
-        if name.startswith("mono"):
-            out.append(tuple(p))
-        elif name == "normal":
-            out.append((s * p[0] + t, s * p[1]))
-        elif name == "expo":
-            out.append((p[0] / s,))
-        else:
-            out.append((p[0], s * p[1] + t, s * p[2], p[3] / s))
-    return out
+    return [_mapped(name, p, s, t) for p in DENSITIES[name].base_points]
 
 
 _CACHE = {}
@@ -188,10 +266,12 @@ def exact(name, params, a, b):
                 lam = mpmath.mpf(lam)
                 return mpmath.exp(-lam * A) - mpmath.exp(-lam * B)
 
-            if name == "normal":
+            if FAMILY[name] == "normal":
                 v = gauss(params[0], params[1])
-            elif name == "expo":
+            elif FAMILY[name] == "expo":
                 v = expon(params[0])
+            elif FAMILY[name] == "rexpo":
+                v = expon(1 / mpmath.mpf(params[0]))
             else:
                 f = mpmath.mpf(params[0])
                 v = f * gauss(params[1], params[2]) + (1 - f) * expon(params[3])
